@@ -217,9 +217,12 @@ def _names(ctx, model):
     for need, (mod, cls, meth) in {"Pregex.capture": (PRE, "Pregex", "capture"), "Backreference.__init__": (GR, "Backreference", "__init__"),
                                    "Conditional.__init__": (GR, "Conditional", "__init__")}.items():
         if need not in have:
+            # the validator is spelled differently (helper, hoisted constant, str methods): no constant to pre-filter
+            # with, so every word character is a candidate and the whole guard is interpreted on each (below and in
+            # the invalid-name rows above, which do not depend on how the guard is written)
             fn = model.method(mod, cls, meth)
-            ctx.violation("R-NAME", fn.relpath, fn.short, "name validator",
-                          "group names are no longer validated against a constant grammar before they are interpolated", fn.node.lineno)
+            sites.append((fn, "\\w+"))
+            ctx.note(f"{need}: no regex-constant name validator found at the raise site; the guard is judged by interpretation only")
     for fn, const in sites:
         ctx.instance("R-NAME", key=("validator", fn.short), sample=f"{fn.short}: validator {const!r}")
         try:
@@ -228,7 +231,7 @@ def _names(ctx, model):
             ctx.violation("R-NAME", fn.relpath, fn.short, "name validator", f"validator does not compile: {e}", fn.node.lineno)
             continue
         for s in ["a)", "a>", "a(", "a b", "a-b", "1", "", "a|b", "a\\"]:
-            if rx.fullmatch(s):
+            if const != "\\w+" and rx.fullmatch(s):
                 ctx.violation("R-NAME", fn.relpath, fn.short, "name validator",
                               "the group-name validator admits a regex metacharacter / non-identifier", fn.node.lineno, inp=repr(s))
         if ctx.tier == "thorough":
